@@ -470,5 +470,39 @@ pub fn run(ctx: &Ctx, rep: &mut Report, replay: Option<&serde_json::Value>) {
             std::process::exit(2);
         }
     }
-    run_prop(ctx, rep, "seq", ctx.tier.pick(260, 5000), case_strategy(per_chunk), |c, i| prop(&env, c, i));
+    run_prop(ctx, rep, "seq", ctx.tier.pick(1200, 30_000), case_strategy(per_chunk), |c, i| prop(&env, c, i));
+    // Transport leg: the same documents over routinator's real HTTP listener (chunked transfer
+    // coding on a loopback socket) must be byte-identical to what the dispatcher streamed.
+    let Some((served, addr)) = spawn_listener(ctx) else {
+        eprintln!("C18: cannot start loopback listener");
+        std::process::exit(2);
+    };
+    run_prop(ctx, rep, "tcp", ctx.tier.pick(40, 600), (step_strategy(per_chunk), prop_oneof![Just(Ask::NoQuery), Just(Ask::Back(0)), Just(Ask::Back(1))]), |(step, ask), info| {
+        let before: u32 = served.history.read().serial().into();
+        install(env.kit, &served, step, &step_set(step));
+        let after: u32 = served.history.read().serial().into();
+        let session = served.history.read().session();
+        let uri = match ask {
+            Ask::NoQuery => "/json-delta".to_string(),
+            Ask::Back(0) => format!("/json-delta?session={}&serial={}", session, after),
+            _ => format!("/json-delta?session={}&serial={}", session, before),
+        };
+        let direct = get(env.rt, &served.handler, &uri);
+        let (status, _, body) = match http_request(addr, "GET", &uri, &[], &[]) {
+            Ok(x) => x,
+            Err(e) => return Verdict::Dropped(format!("tcp_transport_error:{}", e.split(':').next().unwrap_or(""))),
+        };
+        info.class(format!("tcp_chunks={}", direct.chunks.len().min(4)));
+        info.nt(direct.chunks.len() >= 2);
+        if status != 200 || direct.status != 200 {
+            return Verdict::fail("C18/tcp/status", format!("GET {} -> {} over TCP, {} in process", uri, status, direct.status));
+        }
+        if body != direct.body() {
+            return Verdict::fail("C18/tcp/body-differs", format!("GET {}: {} bytes over TCP, {} bytes from the dispatcher", uri, body.len(), direct.body().len()));
+        }
+        if let Err(e) = JVal::parse(&body) {
+            return Verdict::fail("C18/invalid-json", format!("GET {} over TCP: {}", uri, e));
+        }
+        Verdict::Pass
+    });
 }
